@@ -11,7 +11,7 @@ LEVEL = "exploration"
 K = 400.0     # 100 x the largest clean-tree ratio of fit residual to eps*data magnitude seen while calibrating (DESIGN C11)
 RULE = ("Hypothesis scenarios restricted to the property's domain: smooth families (LIN/SINLIN/ROSEN, optionally with "
         "sample noise), none/box/one-sided/scaled bounds, npt in n+1..2n+1 with a fully initialised initial set (coordinate or random, "
-        "incl. parallel evaluation; never a reduced one), regression extra steps, tiny and normal budgets, soft and hard restarts, averaging. With X, R the recorded points and residual "
+        "incl. parallel evaluation; a reduced (growing) initial set is judged once the growing phase has completed the set), regression extra steps, tiny and normal budgets, soft and hard restarts, averaging. With X, R the recorded points and residual "
         "means named by soln.jacmin_eval_nums: interpolation (npt=n+1) is checked as R_k - R_0 = J (X_k - X_0), regression as "
         "the normal equations of the centred least-squares problem, both in backward-error form in the user's coordinates; "
         "for LIN additionally J = A. Non-trivial = >=1 base shift, or scaling, or npt > n+1, or >=1 restart. Distinct = SHA-1.")
@@ -20,7 +20,7 @@ ASSUMPTIONS = ["tolerance K*eps*(1+S)*||Xc||*(sqrt(npt)*max|R| + ||Xc||*||J|| + 
                "point numbers come from the dfols log; residual at a point = mean of its recorded samples",
                "cases where no Jacobian is returned, or the point set is not fully initialised, are outside the statement"]
 
-PROF = sc.make_prof(fams=["lin", "lin", "sinlin", "rosen"], opts=True, opts_list=[1, 1, 1, 2, 2, 6, 7, 9, 10, 11], noise_flag=False,
+PROF = sc.make_prof(fams=["lin", "lin", "sinlin", "rosen"], opts=True, opts_list=[0, 0, 0, 1, 1, 1, 2, 2, 6, 7, 9, 10, 11, 12], noise_flag=False,
                     diag=0.0, zero_resid=0.05,
                     maxfuns=["npt", "npt+1", 10, 30, 60, 150], bounds=["none", "box", "lower", "mixed", "scaled", "scaled"])
 
@@ -44,6 +44,10 @@ def run(case):
     n = case["n"]
     up = case["up"]
     maxnpt = up.get("restarts.max_npt", case["npt"]) if up.get("restarts.increase_npt") else case["npt"]
+    if up.get("growing.ndirs_initial") is not None and (len(names) < case["npt"] or 0 in names):
+        # while the set is still growing the unfilled slots are exported as evaluation number 0
+        res.count("growing-phase-not-finished")      # the statement is about a fully initialised point set
+        return res
     if any((k < 1 or k > s.nx or k not in groups) for k in names) or not (n + 1 <= len(names) <= maxnpt) or len(set(names)) != len(names):
         res.fail("C11.names_valid", "jacmin_eval_nums=%r with nx=%r, npt in [%d,%d]" % (names, s.nx, n + 1, maxnpt))
         return res
